@@ -18,7 +18,9 @@ rule = ("scripts = 'enc new <codec> <cap>' then direct encoder calls on a caller
         "('apush ...'), or 'py <msg> <frame of mpt.py:encode_cobs>'.  Stream 1 (exhaustive) = every message over "
         "{00,01,1f,20,df,e0,ff} up to length 4 (quick) / 5 (thorough) x 5 framings, one push, exact-fit window; "
         "stream 2 = boundary-directed run structures (lengths 30..32, 222..225, 253..256, 508..510) x chunkings x "
-        "capacity schedules (ample, exact, byte-wise growth); stream 3 = random structured messages incl. rejected "
+        "capacity schedules (ample, exact, byte-wise growth); stream 2b = array pushes that end a maximal block at the "
+        "buffer end; stream 2c = deletion ('del k': abort of the message in progress incl. one with finished blocks, "
+        "removal of 0..3 finished frames, too many) x 5 framings x window/array, and calls with a NULL window; stream 3 = random structured messages incl. rejected "
         "command text.  Non-trivial = a script in which a frame was finished AND (a block of maximal length was "
         "closed, or a zero pair was folded, or the tail byte was inlined, or a call consumed only part of its input "
         "or was refused for lack of space), counted per distinct script")
@@ -215,6 +217,33 @@ def scripts(tier, seed, scale=1):
                 out.append(("ap:%s:%d:%d" % (codec, l1, l2),
                             ["apush new " + codec, "apush push " + gen.hexs(first), "apush push " + gen.hexs(second),
                              "apush term", "apush check", "apush push " + gen.hexs(second[:full]), "apush term", "apush check"]))
+    # ---- stream 2c: message deletion (abort of the message in progress, removal of finished frames) and the
+    # uninitialized window (NULL base)
+    rd = gen.rng(id, tier, seed, "delete")
+    partials = [[], [0x62], [0x62, 0x62, 0, 0x63], [0, 0], [9] * 300, [9] * 254 + [0, 0, 7]]
+    for codec in CODECS:
+        for pi, part in enumerate(partials):
+            if codec == "command":
+                part = [b if b else 0x2e for b in part]
+            for nfin in (0, 1, 2):
+                for k in (0, 1, 2, 3):
+                    for via in ("enc", "apush"):
+                        if via == "apush" and k == 0:
+                            continue
+                        new = "enc new %s 1200" % codec if via == "enc" else "apush new " + codec
+                        pre = "enc" if via == "enc" else "apush"
+                        lines = [new]
+                        if via == "enc" and pi == 0:
+                            lines += ["enc nullwin term", "enc nullwin 6161", "enc nullwin -"]
+                        for f in range(nfin):
+                            lines += ["%s push %s" % (pre, gen.hexs([0x61 + f] * (f + 1))), pre + " term"]
+                        if part:
+                            lines.append("%s push %s" % (pre, gen.hexs(part)))
+                            if via == "enc" and rd.random() < 0.3:
+                                lines.append("enc nullwin term")
+                        lines += ["%s del %d" % (pre, k), "%s push 64" % pre, pre + " term", pre + " check",
+                                  "%s del 1" % pre, pre + " term", pre + " check"]
+                        out.append(("del:%s:%d:%d:%d:%s" % (codec, pi, nfin, k, via), lines))
     # ---- stream 3: random structured, incl. rejected command text, plus the Python encoder
     r = gen.rng(id, tier, seed, "random")
     nr = (60 if tier == "quick" else 600) * scale
